@@ -31,6 +31,7 @@ EXHAUSTIVE = {
     "thorough": {"ttv/ttm mode subsets N<=4": "complete", "one-hot basis sweep for shapes <= 12 cells (ttv, ttm, innerprod, contract, collapse, scale)": "complete"},
 }
 NPINT_ARGS = True     # a quarter of the cases pass their integer arguments as NumPy integers (core.Ctx.begin)
+STRIDED_ARGS = True   # a quarter of the cases pass every array argument as a strided, non-contiguous view (core.Ctx.begin)
 WATCHDOG = {"quick": 900, "thorough": 3400}
 TOL = 1e-10
 
